@@ -247,9 +247,8 @@ func workerCall(req wreq, bound time.Duration, fresh bool) (wresp, callStatus, s
 	select {
 	case line, ok := <-wp.lines:
 		if !ok {
-			wp.cmd.Wait()
-			msg := "worker exited; stderr: " + wp.stderr.String()
 			wp.kill()
+			msg := "worker exited; stderr: " + wp.stderr.String()
 			wp = nil
 			return wresp{}, callDied, msg
 		}
